@@ -48,6 +48,12 @@ type Case struct {
 	// AbortAfter > 0 (last case of a script only): the backend's connection dies after that many flushed pieces of
 	// the body (no Content-Length). The client must not be handed the torso as a complete response.
 	AbortAfter int `json:"abort_after,omitempty"`
+	// Raw != "": the backend answers with hand-written HTTP/1.1 bytes (the net/http test backend cannot produce these
+	// shapes): "304-cl" = 304 Not Modified carrying the Content-Length of the representation (RFC 9110 15.4.5),
+	// "close-delimited" = a body without Content-Length or chunking that ends with the connection,
+	// "chunk-ext" = a chunked body whose chunks carry chunk extensions (RFC 9112 7.1.1)
+	Raw   string `json:"raw,omitempty"`
+	RawCL int    `json:"raw_cl,omitempty"`
 }
 
 type Script struct {
@@ -55,7 +61,7 @@ type Script struct {
 	PreserveHost bool   `json:"preserve_host"`
 	Concurrent   bool   `json:"concurrent"` // h2: all requests in flight at once
 	Cases        []Case `json:"cases"`
-	Volume       bool   `json:"volume,omitempty"` // many sequential uploads on the one connection
+	Volume       bool   `json:"volume,omitempty"`      // many sequential uploads on the one connection
 	NeverIndex   bool   `json:"never_index,omitempty"` // h2raw: credentials-like request fields go as HPACK never-indexed literals
 }
 
@@ -208,6 +214,21 @@ func genCase(t *rapid.T, proto string, i int, thorough bool) Case {
 			c.Announce = rapid.Bool().Draw(t, "announce")
 		}
 	}
+	if rapid.IntRange(0, 5).Draw(t, "raw") == 0 {
+		c.Raw = rapid.SampledFrom([]string{"304-cl", "304-cl", "close-delimited", "chunk-ext"}).Draw(t, "rawkind")
+		c.RespTrailers, c.Announce = nil, false
+		switch c.Raw {
+		case "304-cl":
+			c.Status, c.RespBodyLen, c.RespPieces = 304, 0, nil
+			c.RawCL = rapid.SampledFrom([]int{0, 1, 1234, 200000, 5000000000}).Draw(t, "rawcl")
+		default:
+			if c.Status == 204 || c.Status == 304 || c.Method == "HEAD" {
+				c.Raw = ""
+			} else if c.RespBodyLen == 0 {
+				c.RespBodyLen, c.RespSeed = 3000, 7
+			}
+		}
+	}
 	return c
 }
 
@@ -231,7 +252,7 @@ func gen(t *rapid.T) Script {
 	}
 	if rapid.IntRange(0, 7).Draw(t, "backendDies") == 0 {
 		last := &s.Cases[n-1]
-		if last.Method != "HEAD" && last.Status == 200 {
+		if last.Method != "HEAD" && last.Status == 200 && last.Raw == "" {
 			last.RespBodyLen, last.RespPieces, last.RespTrailers = 200000, []int{8192}, nil
 			last.AbortAfter = rapid.IntRange(1, 12).Draw(t, "abortAfter")
 		}
@@ -276,6 +297,51 @@ func exec(t *testing.T, s Script) *vstat.Violation {
 				return
 			}
 			c := s.Cases[i]
+			if c.Raw != "" {
+				hj, ok := w.(http.Hijacker)
+				if !ok {
+					w.WriteHeader(598)
+					return
+				}
+				conn, _, err := hj.Hijack()
+				if err != nil {
+					return
+				}
+				defer conn.Close()
+				var out bytes.Buffer
+				fmt.Fprintf(&out, "HTTP/1.1 %d %s\r\n", c.Status, http.StatusText(c.Status))
+				for _, h := range c.RespHeaders {
+					fmt.Fprintf(&out, "%s: %s\r\n", h[0], h[1])
+				}
+				out.WriteString("Connection: close\r\n")
+				b := body(c.RespBodyLen, c.RespSeed)
+				switch c.Raw {
+				case "304-cl":
+					fmt.Fprintf(&out, "Content-Length: %d\r\n\r\n", c.RawCL)
+				case "close-delimited":
+					out.WriteString("\r\n")
+					out.Write(b)
+				case "chunk-ext":
+					out.WriteString("Transfer-Encoding: chunked\r\n\r\n")
+					k := 0
+					for len(b) > 0 {
+						n := min(len(b), 5000)
+						if len(c.RespPieces) > 0 {
+							// (chunks of at least 200 octets: net/http's chunked reader, which the proxy's backend transport
+							// uses, gives up on bodies that are mostly chunk framing - "too much non-data")
+							n = min(len(b), max(200, c.RespPieces[k%len(c.RespPieces)]))
+						}
+						k++
+						fmt.Fprintf(&out, "%x;n=%d;sig=\"a b\"\r\n", n, k)
+						out.Write(b[:n])
+						out.WriteString("\r\n")
+						b = b[n:]
+					}
+					out.WriteString("0;last\r\n\r\n")
+				}
+				conn.Write(out.Bytes())
+				return
+			}
 			for _, h := range c.RespHeaders {
 				w.Header().Add(h[0], h[1])
 			}
@@ -378,6 +444,11 @@ func exec(t *testing.T, s Script) *vstat.Violation {
 				}
 				rb, err := io.ReadAll(resp.Body)
 				resp.Body.Close()
+				if err == io.ErrUnexpectedEOF && cs.Raw == "304-cl" && len(rb) == 0 {
+					// x/net's client transport expects as many body octets as a Content-Length announces, also on a
+					// 304, which never has a body: an artefact of the test client, the response itself is complete
+					err = nil
+				}
 				if err != nil {
 					resps[i].err = "read body: " + err.Error()
 				}
@@ -582,6 +653,22 @@ func exec(t *testing.T, s Script) *vstat.Violation {
 				return vstat.Violf(pc+"|response-header-changed", "case %d: backend sent %s: %q, client received %q", i, k, wv, r.header.Values(k))
 			}
 		}
+		if c.Raw != "" {
+			classes = append(classes, "raw-backend-response:"+c.Raw+":"+s.Proto)
+		}
+		if c.Raw == "304-cl" {
+			// Content-Length on a 304 is the length of the representation, an end-to-end field like any other
+			if got := r.header.Values("Content-Length"); len(got) != 1 || got[0] != fmt.Sprint(c.RawCL) {
+				v := vstat.Violf(pc+"|content-length-of-304-changed", "case %d: backend sent 304 with Content-Length: %d, client received Content-Length %q", i, c.RawCL, got)
+				if s.Proto == "http/1.1" && len(got) == 0 {
+					// net/http's HTTP/1.1 server strips Content-Length from every 304 it writes (suppressedHeaders)
+					v = vstat.Violf("h1-304-content-length|header-not-forwarded", "case %d: backend sent 304 with Content-Length: %d, the HTTP/1.1 client received none", i, c.RawCL)
+				}
+				if !col.Known(v.Sig) {
+					return v
+				}
+			}
+		}
 		wantRB := body(c.RespBodyLen, c.RespSeed)
 		if c.Method == "HEAD" {
 			wantRB = nil
@@ -730,7 +817,7 @@ func dedup(in []string) []string {
 func TestPassThrough(t *testing.T) {
 	rig.Certs()
 	col.Mandatory("proto:h2", "proto:http/1.1", "preserve-host:true", "preserve-host:false", "request-body>64KiB", "response-body>64KiB", "request-trailers", "response-trailers", "hop-by-hop", "concurrent", "chunked-or-unknown-length", "proto:h2raw", "padded-request-data", "unannounced-request-trailers",
-		"response-trailers-all-empty:h2", "uploads-beyond-1MiB-on-one-connection:h2", "expect-100-continue-on-a-used-connection:h2", "backend-dies-mid-body:h2")
+		"response-trailers-all-empty:h2", "uploads-beyond-1MiB-on-one-connection:h2", "expect-100-continue-on-a-used-connection:h2", "backend-dies-mid-body:h2", "raw-backend-response:304-cl:h2", "raw-backend-response:close-delimited:h2", "raw-backend-response:chunk-ext:http/1.1")
 	vstat.Run(t, vstat.Spec[Script]{Col: col, Quick: 500, Thorough: 8000, Gen: gen, Exec: func(s Script) *vstat.Violation { return exec(t, s) }})
 }
 
